@@ -124,9 +124,6 @@ def _translate(repo, rep):
     rep.check(L.name_key(mi[1], mi[2]["_S"]) == A.ident_key(stream), "R10.1",
               site, "the message id is computed from this node's stream",
               construct="msgid-stream", where=wh)
-    okp, why = A.per_node(L.slot_value(mi[1], mi[2]["_M"]))
-    rep.check(okp, "R10.1", site, "the message id local is per-node",
-              construct="msgid-per-node", where=wh, detail=why)
     # translate calls
     calls = []
     for i, (it, conds, path) in enumerate(lin.rows):
